@@ -409,13 +409,35 @@ def _transform_dispatch(ex, st, post, result):
            'dst_size, dst_bbox) in that order')
 
 
-contract('mapproxy.image.transform:ImageTransformer.transform', props=['C01'],
+def _transform_keeps_cacheability(ex, st, post, result):
+    """C20: a picture that must not be cached (error fill, partial answer) stays so after cropping, scaling or reprojection"""
+    import z3
+    e_ = post.env
+    made = [e for i, e in T.evs(st, '_transform_simple', 'ImageTransformer._transform_simple')] + \
+           [e for i, e in T.evs(st, '_transform', 'ImageTransformer._transform')]
+    sets = [e for e in st.trace if e.name == 'setattr:cacheable']
+    if not made:
+        goal = z3.BoolVal(not sets)         # the source image itself is handed back, flag untouched
+    else:
+        src_flag = ex.opaque_field(st, e_['src_img'], 'cacheable')
+        ok = len(made) == 1 and len(sets) >= 1 and sets[-1].args[0] is made[0].result and result is made[0].result \
+            and all(x.args[0] is made[0].result for x in sets)
+        goal = z3.BoolVal(bool(ok))
+        if ok:
+            from pyvc.values import eq
+            goal = z3.And(goal, eq(sets[-1].args[1], src_flag))
+    yield ('result_is_cacheable_iff_source_image_is', goal,
+           'whichever path produced the result (crop/scale or mesh reprojection), its cacheable flag is set to the source image\'s '
+           'flag before it is returned; only the new image is written to')
+
+
+contract('mapproxy.image.transform:ImageTransformer.transform', props=['C01', 'C20'],
          types=dict(src_img='opaque', src_bbox='opaque', dst_size='opaque', dst_bbox='opaque', image_opts='opaque'), returns='opaque',
          default_callee='opaque', opaque_fields={'size': 'opaque', 'cacheable': 'opaque'}, stable_fields=['size'],
          opaque_spec={'_no_transformation_needed': {'returns': 'bool', 'pure': True}, '_transform_simple': {'pure': True},
                       '_transform': {'pure': True}},
          opaque=['_no_transformation_needed', '_transform_simple', '_transform'],
-         trace=[_transform_dispatch])
+         trace=[_transform_dispatch, _transform_keeps_cacheability])
 
 
 def _mosaic_paste(ex, st, k):
